@@ -22,6 +22,15 @@ SEEDED = os.path.join(ROOT, "seeded")
 ENV = dict(os.environ, GOFLAGS="-mod=mod", GOPROXY="off", GOSUMDB="off", GOTOOLCHAIN="local")
 
 
+def freeze_harness():
+    """Long runs build from a frozen copy of the harness so that /verif/harness can be edited meanwhile."""
+    import shutil, atexit
+    snap = "/tmp/harness-snap-%d" % os.getpid()
+    shutil.copytree(os.path.join(ROOT, "harness"), snap, ignore=shutil.ignore_patterns("testdata"))
+    ENV["VERIF_HARNESS_DIR"] = snap
+    atexit.register(lambda: shutil.rmtree(snap, ignore_errors=True))
+
+
 def sh(cmd, cwd, timeout=1800):
     p = subprocess.run(cmd, cwd=cwd, env=ENV, shell=True, stdout=subprocess.PIPE, stderr=subprocess.STDOUT, text=True, timeout=timeout)
     return p.returncode, p.stdout
@@ -168,6 +177,7 @@ def main():
     elif sys.argv[1] == "wrun":
         run_in_worktree(sys.argv[2], sys.argv[3] if len(sys.argv) > 3 else "quick")
     elif sys.argv[1] == "matrix":
+        freeze_harness()
         # every stored change x the given seeds, quick tier, in scratch worktrees, 4 at a time
         from concurrent.futures import ThreadPoolExecutor
         seeds = sys.argv[2].split(",")
